@@ -23,9 +23,11 @@ Definition descend (d: dir) (k: tstep) : (kv -> kv) -> kv -> kv -> res kv :=
   | Ser, TNewType => K5P.descend_pack_newtype
   | Ser, TOptional => K5P.descend_pack_optional
   | Ser, TElement => K5P.descend_pack_element
+  | Ser, TMember => K5P.descend_pack_member
   | De, TNewType => K5P.descend_unpack_newtype
   | De, TOptional => K5P.descend_unpack_optional
   | De, TElement => K5P.descend_unpack_element
+  | De, TMember => K5P.descend_unpack_member
   end.
 
 Definition site_cls (d: dir) (self: bool) : kv -> kv -> kv -> kv :=
